@@ -250,13 +250,10 @@ def run_case(case, ch, workdir):
             probe("requeue_issued")
             if any(val.get(k) != v for k, v in expected.items()):
                 violation(res, "wrong-output", sig, f"returned {val}, expected {expected}; {ctx}")
-        elif status == "ok" and results_ok and all(val.get(k) == v for k, v in expected.items()) and any(s in ("CANCELLED", "TIMEOUT", "PREEMPTED", "EVICTED") for s in final):
-            # the scheduler killed the job after it had stored its complete result: the
-            # worker returns that (correct) result - nothing is left to requeue
-            probe("killed_after_result_complete")
-        elif status == "ok" and results_ok and all(val.get(k) == v for k, v in expected.items()) and any(s in ("CANCELLED", "TIMEOUT", "PREEMPTED", "EVICTED") for s in final):
-            # the scheduler killed the job after it had stored its complete result: the
-            # worker returns that (correct) result - nothing is left to requeue
+        elif status == "ok" and results_ok and all(val.get(k) == v for k, v in expected.items()) and any(s in ("CANCELLED", "TIMEOUT", "PREEMPTED", "EVICTED", "NODE_FAIL") for s in final):
+            # the scheduler killed the job (or its node died) after it had stored its
+            # complete result: the worker returns that (correct) result - nothing is
+            # left to requeue
             probe("killed_after_result_complete")
         elif any(s in ("CANCELLED", "TIMEOUT", "PREEMPTED", "EVICTED") for s in final):
             # a killed job that was never brought back
